@@ -20,7 +20,7 @@ pub fn def() -> PropDef {
         profiles: &["checked"],
         abort_is_violation: false,
         rule: "differential: every generated input (reference-rendered, layout-rendered, crate-written, mutated, \
-               spliced, repo test fixtures, arbitrary format-biased bytes) for a generated (parser, literal type, \
+               spliced, repo test fixtures, hostile headers and delta codes, arbitrary format-biased bytes) for a generated (parser, literal type, \
                config) is parsed twice: once delivered in a single read() (what the repository's tests do) and once \
                through a generated feed (read schedule incl. 1 byte per read and Interrupted, chunk size 1..64 / \
                4096 / default, constructor from_read / from_boxed_dyn_read / from_buf_reader). Items and the final \
@@ -202,7 +202,7 @@ fn large_case_strategy() -> impl Strategy<Value = Case> {
 
 fn run(ctx: &Ctx) {
     let n = ctx.share(ctx.tier.pick(1_200_000, 12_000_000));
-    let strat = (input_strategy(10, false), feed_strategy()).prop_map(|(input, feed)| Case { input, feed });
+    let strat = (input_strategy(10, true), feed_strategy()).prop_map(|(input, feed)| Case { input, feed });
     ctx.run_cases("differential", n, strat, check);
     let n = ctx.share(ctx.tier.pick(1_600, 16_000));
     ctx.run_cases("differential-large", n, large_case_strategy(), check);
